@@ -15,7 +15,9 @@ def _convert_expr(e, variables_dict):
         return variables_dict[e.id]
     else:
         operands = list(map(lambda x: _convert_expr(x, variables_dict), e.operands))
-        if e.op == Op.NEG:
+        if e.op == Op.BOOL_CONSTANT or e.op == Op.INT_CONSTANT:
+            return operands[0]
+        elif e.op == Op.NEG:
             return -operands[0]
         elif e.op == Op.ADD:
             ret = operands[0]
